@@ -213,6 +213,63 @@ func checkC19(c *Ctx) Meta {
 				}
 			}
 		}
+		// the search decides: the function answers true only when the separator is absent — every way of
+		// returning true is the absent-test itself or lies behind its true edge (`a && b || absent` answers
+		// true for a name with a separator)
+		if ok {
+			var absent ssa.Value // the comparison meaning "separator not in name"
+			allInstrs(valid, func(in ssa.Instruction) {
+				switch x := in.(type) {
+				case *ssa.BinOp:
+					if cl, isC := x.X.(*ssa.Call); isC && isCallAny(cl, "strings.Index", "strings.IndexByte") {
+						if k, isK := x.Y.(*ssa.Const); isK && k.Value != nil {
+							if (x.Op == token.LSS && k.Value.ExactString() == "0") || (x.Op == token.EQL && k.Value.ExactString() == "-1") {
+								absent = x
+							}
+						}
+					}
+				case *ssa.UnOp:
+					if cl, isC := x.X.(*ssa.Call); isC && x.Op == token.NOT && isCallAny(cl, "strings.Contains", "strings.ContainsAny") {
+						absent = x
+					}
+				}
+			})
+			if absent == nil {
+				ok = false
+			} else {
+				behind := func(b *ssa.BasicBlock) bool {
+					for _, t := range boolTestsOf(valid, absent) {
+						if t.TrueSucc != t.FalseSucc && len(t.TrueSucc.Preds) == 1 && (t.TrueSucc == b || t.TrueSucc.Dominates(b)) {
+							return true
+						}
+					}
+					return false
+				}
+				for _, ret := range returnsOf(valid) {
+					var edges func(v ssa.Value, from *ssa.BasicBlock, depth int)
+					edges = func(v ssa.Value, from *ssa.BasicBlock, depth int) {
+						if v == absent || depth > 4 {
+							return
+						}
+						switch x := v.(type) {
+						case *ssa.Const:
+							if x.Value != nil && x.Value.String() == "true" && !behind(from) {
+								ok = false
+							}
+						case *ssa.Phi:
+							for i, e := range x.Edges {
+								edges(e, x.Block().Preds[i], depth+1)
+							}
+						default:
+							if !behind(from) {
+								ok = false // true can be answered by another test without the separator test having passed
+							}
+						}
+					}
+					edges(ret.Results[0], ret.Block(), 0)
+				}
+			}
+		}
 		// non-empty name required as well
 		if ok && joinOK && sep != "" {
 			c.OK("C19-NAME", key, c.Pos(valid.Pos()), "isValidBucketName searches the name for "+sep+", the constant joinBucketPath joins with")
@@ -800,6 +857,9 @@ func checkC19(c *Ctx) Meta {
 	checkUpdateWrapper(c, "C19-UPDATE")
 	_ = types.Typ
 	_ = token.ADD
+	c.Rule("C19-KEEP", "committed data is still there at the next open: no code outside the frozen who-may-destroy table removes, truncates or renames files (the C11-WMC table) — in particular nothing removes the wallet's store directory on a failed open", 5)
+	checkWhoMayDestroy(c, "C19-KEEP")
+
 	return Meta{
 		Explanation: "Structural isolation argument for the bucket store, decided on every leveldb call site of package ldb: all keys come from the one constructor or are index keys; names are validated against the join separator before any index write; write buckets use only their own transaction; read-only buckets cannot write; scans use path+separator prefixes; the two bucket kinds agree operation-for-operation; db.Update has the rollback/commit shape.",
 		NotDecided:  "the map semantics for all operation sequences; isolation for adversarial keys beyond the separator rule (e.g. keys imitating index entries across depths); rdb (rocksdb build tag, cgo) cannot be type-checked here and is out of scope.",
